@@ -222,6 +222,21 @@ class Scenario:
         return None
 
 
+def resolve_conditionals(e, env, scenario):
+    """`A if T else B` inside an expression: the branch the scenario selects (T decided like an `if` statement)"""
+    import copy
+
+    class R(ast.NodeTransformer):
+        def visit_IfExp(self, n):
+            v = scenario.eval(n.test, env)
+            if v is None:
+                raise Unsupported(f"test `{ast.unparse(n.test)}` is not decided by the scenario")
+            return self.visit(n.body if v else n.orelse)
+    if not any(isinstance(x, ast.IfExp) for x in ast.walk(e)):
+        return e
+    return R().visit(copy.deepcopy(e))
+
+
 def straightline(stmts, env, scenario, opaque=None, returns=None):
     """Execute assignments along the branch selected by `scenario`. env maps texts (e.g. 'self.mean', 'delta') to Rat.
 
@@ -231,12 +246,12 @@ def straightline(stmts, env, scenario, opaque=None, returns=None):
     for st in stmts:
         if isinstance(st, ast.Assign):
             if isinstance(st.value, ast.Tuple) and len(st.targets) == 1 and isinstance(st.targets[0], ast.Tuple):
-                vals = [formula(v, env, opaque) for v in st.value.elts]
+                vals = [formula(resolve_conditionals(v, env, scenario), env, opaque) for v in st.value.elts]
                 for t, v in zip(st.targets[0].elts, vals):
                     env[ast.unparse(t)] = v
                 continue
             try:
-                v = formula(st.value, env, opaque)
+                v = formula(resolve_conditionals(st.value, env, scenario), env, opaque)
             except Unsupported:
                 if all(isinstance(t, (ast.Name, ast.Attribute)) for t in st.targets) and _is_nonnumeric(st.value):
                     for t in st.targets:
@@ -251,7 +266,7 @@ def straightline(stmts, env, scenario, opaque=None, returns=None):
         elif isinstance(st, ast.AugAssign):
             k = ast.unparse(st.target)
             cur = env.get(k, Rat.sym(k))
-            v = formula(st.value, env, opaque)
+            v = formula(resolve_conditionals(st.value, env, scenario), env, opaque)
             if isinstance(st.op, ast.Add):
                 env[k] = cur + v
             elif isinstance(st.op, ast.Sub):
